@@ -625,6 +625,7 @@ class ExprMixin:
         return self.then(self.ev(e.func, st), f)
 
     def concrete_items(self, v, st):
+        self.use_generator(v, st)
         if isinstance(v, tuple):
             return list(v)
         if isinstance(v, Ref) and st.get(v).get("__kind__") in ("list", "tuple", "set"):
@@ -642,7 +643,24 @@ class ExprMixin:
         return self.comp(e, st, "list")
 
     def ev_GeneratorExp(self, e, st):
-        return self.comp(e, st, "list")
+        # a generator expression is evaluated like the list of its elements (its elements are computed eagerly: element expressions in the code
+        # base are pure), but it can be traversed only ONCE: the result is marked and a second traversal is rejected (use_generator)
+        out = []
+        for k, v, s in self.comp(e, st, "list"):
+            if k == "val" and isinstance(v, Ref):
+                s.put(v, dict(s.get(v), __gen__=True))
+            out.append((k, v, s))
+        return out
+
+    def use_generator(self, v, st):
+        """called by everything that traverses an iterable: a generator object may be traversed once (a second traversal would silently yield
+        nothing / the unconsumed rest in CPython - not modelled, so it is rejected)"""
+        if isinstance(v, Ref):
+            stor = st.get(v)
+            if stor.get("__gen__"):
+                if stor.get("__used__"):
+                    raise Unsupported("a generator object is traversed a second time")
+                st.put(v, dict(stor, __used__=True))
 
     def ev_SetComp(self, e, st):
         return self.comp(e, st, "set")
@@ -697,6 +715,7 @@ class ExprMixin:
 
     def iter_items(self, it, st):
         """concrete sequence of element values of an iterable"""
+        self.use_generator(it, st)
         if isinstance(it, Opt):
             raise Unsupported("iteration over maybe-None")
         if isinstance(it, tuple):
